@@ -2234,13 +2234,20 @@ impl Sessions {
         peer_nodeid: Option<u64>,
         dev_det: &BasicInfoConfig<'_>,
     ) -> Result<&mut Session, Error> {
-        let session_id = self.next_sess_unique_id;
+        // The unique session ID has only 28 bits (the upper 4 bits of an `ExchangeId` are
+        // reserved for the exchange index) and therefore wraps around - after 2^28 calls,
+        // and every received session request is one, also when the table is full. A long-lived
+        // session might still be using the ID the counter arrives at: skip the IDs in use, or
+        // else two sessions would answer to the same ID and `Sessions::get` / `Exchange` handles
+        // of the newer one would operate on the older one.
+        let next_unique_id = |id: u32| if id >= 0x0fff_ffff { 0 } else { id + 1 };
 
-        self.next_sess_unique_id += 1;
-        if self.next_sess_unique_id > 0x0fff_ffff {
-            // Reserve the upper 4 bits for the exchange index
-            self.next_sess_unique_id = 0;
+        let mut session_id = self.next_sess_unique_id;
+        while self.sessions.iter().any(|sess| sess.id == session_id) {
+            session_id = next_unique_id(session_id);
         }
+
+        self.next_sess_unique_id = next_unique_id(session_id);
 
         // Seed the peer's MRP intervals from our own configured defaults;
         // they'll be overwritten by Sigma1 / PBKDFParamRequest (or the
